@@ -38,7 +38,7 @@ def run_histories(chk, binary, scripts, jobs=16, timeout=300):
     return traces
 
 
-def corpus_scripts(chk, zoo, paths, copies=2):
+def corpus_scripts(chk, zoo, paths, copies=3):
     """histories that exposed a seeded change or a genuine defect (corpus/<check>/*.json, written by bin/mkcorpus):
     replayed first in every run, each a few times because placement ties are broken by Go map order"""
     d = os.path.join(VERIF, 'corpus', chk.prop)
